@@ -293,6 +293,9 @@ impl<'a> Ctx<'a> {
                     (Ty::Bool, Ty::Nat) => Ok((L::app("Bool.toNat", vec![v]), Ty::Nat)),
                     // `usize as f32`: round-to-nearest conversion = `Num.ofNat` (`Float32.ofNat` at Float32, the embedding at Rat)
                     (Ty::Nat, Ty::F32) => Ok((L::app("Num.ofNat", vec![v]), Ty::F32)),
+                    (Ty::Nat, Ty::Nat) if self.ext.index_as_u32 && crate::emit::norm(&c.ty) == "u32" => Ok((v, Ty::Nat)),
+                    // blockmod.rs (opt-in): `<count of children> as u32`, a stated totalisation (`Gen.Block.as_u32`, the identity)
+                    (Ty::Nat, Ty::Nat) if self.ext.block && crate::emit::norm(&c.ty) == "u32" => Ok((L::app("Gen.Block.as_u32", vec![v]), Ty::Nat)),
                     (Ty::Nat, Ty::Nat) => Err("integer-to-integer cast (width not tracked)".into()),
                     _ => Err(format!("unsupported cast `{}`", quote::quote!(#c))),
                 }
@@ -403,7 +406,8 @@ impl<'a> Ctx<'a> {
                     Err(format!("unsupported macro `{}`", quote::quote!(#m)))
                 }
             }
-            Expr::Index(_) => Err("indexing as a value (can panic) is outside the fragment".into()),
+            // flexwhile.rs (opt-in): `x[..]`, and `x[0]` inside the arm of an index statement; otherwise an error
+            Expr::Index(ix) => self.ext2_index(ix),
             Expr::Closure(_) => Err("closure outside a whitelisted method call".into()),
             _ => Err(format!("unsupported expression `{}`", quote::quote!(#e))),
         }
@@ -537,6 +541,10 @@ impl<'a> Ctx<'a> {
 
     fn struct_lit(&mut self, s: &syn::ExprStruct, expect: &Ty) -> R<(L, Ty)> {
         if s.rest.is_some() {
+            // blockmod.rs (opt-in): `T { f: v, ..base }`
+            if let Some(r) = self.block_struct_update(s, expect)? {
+                return Ok(r);
+            }
             return Err("struct update syntax".into());
         }
         let tname = path_segs(&s.path).last().unwrap().clone();
@@ -577,6 +585,10 @@ impl<'a> Ctx<'a> {
     }
 
     fn binary(&mut self, b: &syn::ExprBinary, _expect: &Ty) -> R<(L, Ty)> {
+        // blockmod.rs (opt-in): `x.is_none() || … x.unwrap() …`
+        if let Some(r) = self.block_guarded_unwrap(b)? {
+            return Ok(r);
+        }
         if let BinOp::And(_) | BinOp::Or(_) = b.op {
             let (l, lt) = self.expr(&b.left, &Ty::Bool)?;
             let (r, rt) = self.expr(&b.right, &Ty::Bool)?;
@@ -674,7 +686,7 @@ impl<'a> Ctx<'a> {
 
     /// `|val, basis| tree.calc(val, basis)` (or `resolve_calc_value`): the `calc` resolver of the tree, passed on
     fn is_tree_calc_closure(&self, e: &Expr) -> bool {
-        let tree = match self.prog.as_ref().and_then(|p| p.tree_param.clone()) {
+        let tree = match self.prog.as_ref().and_then(|p| p.tree_param.clone()).or(self.ext.calc_tree.clone()) {
             Some(t) => t,
             None => return false,
         };
@@ -683,7 +695,14 @@ impl<'a> Ctx<'a> {
             if ps.len() == 2 && ps.iter().all(|p| p.chars().all(|c| c.is_alphanumeric() || c == '_')) {
                 let body = quote::quote!(#c.body).to_string();
                 let _ = body;
-                let b = &c.body;
+                // `|val, basis| { tree.calc(val, basis) }` (rustfmt wraps a long closure into a block): the block's only expression
+                let b: &Expr = match &*c.body {
+                    Expr::Block(bl) if bl.label.is_none() && bl.block.stmts.len() == 1 => match &bl.block.stmts[0] {
+                        syn::Stmt::Expr(e, None) => e,
+                        _ => &c.body,
+                    },
+                    b => b,
+                };
                 let got = quote::quote!(#b).to_string().replace(' ', "");
                 return got == format!("{tree}.calc({},{})", ps[0], ps[1]) || got == format!("{tree}.resolve_calc_value({},{})", ps[0], ps[1]);
             }
@@ -769,6 +788,14 @@ impl<'a> Ctx<'a> {
                 .collect();
             if fits.len() == 1 {
                 return Ok((L::A(fits[0].lean.clone()), fits[0].ret.clone()));
+            }
+            // `T::method` (a by-value / by-reference `self` method without further parameters) used as `Fn(T) -> R`
+            let mfits: Vec<&FnSig> = sigs
+                .iter()
+                .filter(|s| ptys.len() == 1 && !ptys[0].has_unknown() && s.self_ty.as_ref().map(|st| st.compatible(&ptys[0])).unwrap_or(false) && s.params.is_empty() && !s.mut_self && !s.prog && s.dropped == 0)
+                .collect();
+            if mfits.len() == 1 {
+                return Ok((L::A(mfits[0].lean.clone()), mfits[0].ret.clone()));
             }
         }
         Err(format!("function argument `{}` does not name a translated function of the expected type", segs.join("::")))
@@ -1014,11 +1041,21 @@ impl<'a> Ctx<'a> {
                 };
             }
         }
+        // blockmod.rs (opt-in): the pure reads of the tree (`get_block_child_style`, `child_count`, …) are function parameters
+        if self.is_tree_expr(&m.receiver) {
+            if let Some(r) = self.block_tree_read(m)? {
+                return Ok(r);
+            }
+        }
         if self.is_tree_expr(&m.receiver) {
             return Err(format!("`{}` is an interaction with the tree: only `let x = tree.m(..);`, `tree.m(..);` and a tail call are in the fragment", quote::quote!(#m)));
         }
         // loops.rs (opt-in): list / iterator methods, filtered views
         if let Some(r) = self.ext_method(m, expect)? {
+            return Ok(r);
+        }
+        // blockmod.rs (opt-in): iterator chains over lists (`map filter enumerate all collect` with tuple-pattern closures)
+        if let Some(r) = self.block_method(m, expect)? {
             return Ok(r);
         }
         let (recv, rt) = self.expr(&m.receiver, &Ty::Unknown)?;
@@ -1029,7 +1066,7 @@ impl<'a> Ctx<'a> {
         };
         // translated methods first
         if let Some(sigs) = self.w.fns.get(&(rt.head(), name.clone())) {
-            let view_core = self.view_core;
+            let view_core = self.view_core || self.ext.view_super_core;
             let sigs: Vec<FnSig> = sigs.iter().filter(|s| view.as_ref().map(|v| s.lean.contains(&format!(".{v}.")) || (view_core && s.lean.contains(".CoreStyle."))).unwrap_or(true)).cloned().collect();
             for sig in sigs.clone() {
                 if let Some(st) = &sig.self_ty {
